@@ -16,6 +16,7 @@ TITLE = "DofManager partition / round trip / slicing / assembly index maps, ever
 LEVEL = "model_checking"
 RULE = ("E-PROD: (mesh, fields-per-node) x EVERY subset of an alphabet of (node, component) pairs x 3 encodings "
         "of the same subset; a case is one subset in one configuration (case id = mesh, dim, bitmask). "
+        "each manager is re-checked after the managers of the next subset have been constructed (depth-2 construction history). "
         "Non-trivial = the subset is neither empty nor full, i.e. at least one element has both kinds of dof "
         "(measured per case: 0 < #bc < #dofs and some element mixes constrained and unknown dofs).")
 ASSUMPTIONS = [
@@ -112,6 +113,7 @@ def run_group(g, tier, seed, rec):
     kValues = jnp.array(kel.reshape(nEl, nen, dim, nen, dim))
     sample_ids = set(pick(range(nsub), seed, 3))
 
+    prev = {"dm": None}
     for mask in range(nsub):
         if mask % SHARDS != g["shard"]:
             continue
@@ -141,6 +143,25 @@ def run_group(g, tier, seed, rec):
             rec.case(cid, nontrivial=False, outcome="exception")
             continue
         dm = managers[0]
+        # history clause: constructing managers for THIS subset must not disturb the manager built for the previous subset
+        # of the same configuration (same field shape, different BC set) -- a manager is checked again after later
+        # constructions (added after a seeded change that shared cached state between managers went undetected)
+        if prev["dm"] is not None:
+            pdm = prev["dm"]
+            try:
+                same_state = (onp.array_equal(onp.asarray(pdm.dofToUnknown), prev["d2u"]) and
+                              onp.array_equal(onp.asarray(pdm.unknownIndices), prev["ui"]) and
+                              onp.array_equal(onp.asarray(pdm.HessRowCoords), prev["rows"]) and
+                              onp.array_equal(onp.asarray(pdm.hessian_bc_mask), prev["mask"]))
+                got = [onp.asarray(pdm.slice_unknowns_with_dof_indices(prev["Uu"], onp.s_[:, c])).tolist() for c in range(dim)]
+                rec.branch("history:previous-manager-rechecked")
+                if not same_state or got != prev["slices"]:
+                    rec.violation("DofManager|history|earlier-manager-changed-by-later-construction", cid,
+                                  {"previous_case": prev["cid"], "pairs": pairs, "state_unchanged": bool(same_state),
+                                   "slices_now": got, "slices_expected": prev["slices"]})
+            except Exception as e:  # noqa
+                from mc.runner import exception_key
+                rec.violation("DofManager|history|" + exception_key(e), cid, {"previous_case": prev["cid"], "error": repr(e)})
         for enc, other in zip(("grouped", "repeated"), managers[1:]):
             same = (onp.array_equal(dm.isBc, other.isBc) and onp.array_equal(dm.unknownIndices, other.unknownIndices)
                     and onp.array_equal(dm.bcIndices, other.bcIndices)
@@ -236,6 +257,12 @@ def run_group(g, tier, seed, rec):
             rec.case(cid, nontrivial=False, outcome="exception")
             continue
 
+        try:
+            prev = {"dm": dm, "cid": cid, "d2u": onp.array(dm.dofToUnknown).copy(), "ui": onp.array(dm.unknownIndices).copy(),
+                    "rows": onp.array(dm.HessRowCoords).copy(), "mask": onp.array(dm.hessian_bc_mask).copy(), "Uu": Uu,
+                    "slices": [[U[n_, c] for n_ in range(nNodes) if (n_ * dim + c) not in bcset] for c in range(dim)]}
+        except Exception:  # noqa
+            prev = {"dm": None}
         nontrivial = 0 < len(bc) < nd and mixed
         outcome = "empty" if not bc else ("full" if not unk else ("mixed-elements" if mixed else "unmixed"))
         rec.case(cid, nontrivial=nontrivial, outcome=outcome, steps=3,
